@@ -155,6 +155,15 @@ func jobsFor(prop, tier string) []Job {
 				Assumes: []string{"Go memory model for the sync primitives as modelled by the cooperative runtime", "utils.Hash exact on concrete keys"},
 				Outside: []string{"more than two concurrent read-write transactions", "more preemptions than the bound"}}
 			js = append(js, cj)
+			c4 := cj
+			c4.Name, c4.Fn, c4.Params = "txn-conc4-begin-during-commit-dev1", "VH_CONC4", params("MEMTHR", 1000)
+			c4.Bounds = map[string]any{"goroutines": "a two-key committer + a reader whose Begin may fall inside the commit + engine background goroutines", "schedules": "all picks at blocking points + 1 preemption (thorough: 2)"}
+			js = append(js, c4)
+			if thorough {
+				c42 := c4
+				c42.Name, c42.MaxDev, c42.Params = "txn-conc4-dev2-rotating", 2, params("MEMTHR", 20)
+				js = append(js, c42)
+			}
 			if thorough {
 				cj2 := cj
 				cj2.Name, cj2.MaxDev = "txn-conc2-dev2-rotating", 2
@@ -206,6 +215,10 @@ func jobsFor(prop, tier string) []Job {
 			cj.Fn = "VH_CONC2"
 			cj.OnlyAsserts = []string{"C05.", "C06.", "C07."}
 			js = append(js, cj)
+			c4 := mk("conc4-begin-during-commit-dev1", params("MEMTHR", 1000), 1, false)
+			c4.Fn = "VH_CONC4"
+			c4.OnlyAsserts = []string{"C05."}
+			js = append(js, c4)
 			// two committers whose commits rotate the memtable
 			cr := mk("conc2-rmw-rotating-dev1", params("MEMTHR", 20, "IBMAX", 1), 1, false)
 			cr.Fn = "VH_CONC2"
